@@ -122,6 +122,16 @@ theorem c13_eq_hash (a b : Addr) (h : Address.eq a b = true) : pyHash a = pyHash
   simp only [Address.eq, Bool.and_eq_true, beq_iff_eq] at h
   simp [pyHash, h.1, h.2]
 
+/-- `a == b` holds EXACTLY when the workchains and the account ids agree (flags do not count): no two different (workchain, id) pairs
+compare equal - in particular not the pairs `(wc, id)` / `(wc + k, id - k * 2^s)` that a packing of both fields into one integer with a wrong
+width `s` would identify. -/
+theorem c13_eq_iff (a b : Addr) : Address.eq a b = true ↔ a.wc = b.wc ∧ a.hash = b.hash := by
+  simp [Address.eq]
+
+/-- non-vacuity of the "only if" direction: two addresses that `__hash__` packs to the same integer (workchain + 1, id - 1) are NOT equal. -/
+example : pyHash ⟨0, [0, 1], false, false⟩ = pyHash ⟨1, [0, 0], false, false⟩ ∧
+    Address.eq ⟨0, [0, 1], false, false⟩ ⟨1, [0, 0], false, false⟩ = false := by decide
+
 /-- `Address(Address(..))` and the tuple form carry the same workchain and hash, hence are `==`. -/
 theorem c13_copy_eq (a : Addr) : Address.eq (ofAddr a) a = true ∧ Address.eq (ofTuple a.wc a.hash) a = true := by
   simp [Address.eq, ofAddr, ofTuple]
@@ -374,6 +384,12 @@ theorem c13_src_eq_hash (a b : Addr)
       Generated.AddrFull.hash (self_wc := b.wc) (self_hash_part := b.hash) := by
   rw [src_eq_eq] at h
   rw [src_hash_eq, src_hash_eq, c13_eq_hash a b (by simpa using h)]
+
+/-- the regenerated `__eq__` returns True EXACTLY when the workchains and the account ids agree. -/
+theorem c13_src_eq_iff (a b : Addr) :
+    Generated.AddrFull.eq (self_wc := a.wc) (self_hash_part := a.hash) (other := b) = some true ↔ a.wc = b.wc ∧ a.hash = b.hash := by
+  rw [src_eq_eq]
+  simp [Address.eq]
 
 /-- the copies built by the regenerated constructor (`Address(address)`, `Address((wc, hash))`) are `==` the original under the
 regenerated `__eq__` (the flags are not compared, and not copied). -/
